@@ -1,26 +1,4 @@
-// ---- prelude for the expectation grammar unit (C08). TRUSTED.
-// RuleRegistry is a HashMap<String, fn(&str) -> Result<Box<dyn Rule>>>: opaque here. Which names are registered and what a
-// registered maker returns are uninterpreted; `make` fails for an unregistered name (src/rules/registry.rs, read, not verified).
-#[verifier::external_body]
-pub struct OpaqueRegistry { _p: () }
-pub uninterp spec fn reg_is_kind(r: OpaqueRegistry, k: Seq<char>) -> bool;
-pub uninterp spec fn reg_make_ok(r: OpaqueRegistry, k: Seq<char>, e: Seq<char>) -> bool;
-pub uninterp spec fn reg_make(r: OpaqueRegistry, k: Seq<char>, e: Seq<char>) -> DynRule;
-impl OpaqueRegistry {
-    #[verifier::external_body]
-    pub fn make(&self, kind: &str, expression: &str) -> (r: anyhow::Result<DynRule>)
-        ensures (r is Ok) == reg_make_ok(*self, kind@, expression@), r is Ok ==> r->Ok_0 == reg_make(*self, kind@, expression@),
-            !reg_is_kind(*self, kind@) ==> r is Err,
-    { unimplemented!() }
-}
-/// `\s` of the regex crate (Unicode White_Space)
-pub uninterp spec fn is_ws(c: char) -> bool;
-/// newline::trim_newlines(&str)
-pub uninterp spec fn trim_nl(s: Seq<char>) -> Seq<char>;
-#[verifier::external_body]
-pub fn __trim_newlines(s: &&str) -> (r: String) ensures r@ == trim_nl(s@) { unimplemented!() }
-#[verifier::external_body]
-pub fn __string_eq_str(a: &String, b: &str) -> (r: bool) ensures r == (a@ == b@) { a == b }
+// ---- prelude for the expectation grammar unit (C08). TRUSTED. (registry part: prelude_reg.rs)
 // what a rule is made of (Rule::unmake) and the two Escaper functions used for rendering (their contracts are C11's subject)
 pub uninterp spec fn rule_kind(r: DynRule) -> Seq<char>;
 pub uninterp spec fn rule_expr(r: DynRule) -> Seq<u8>;
@@ -36,11 +14,3 @@ impl Escaper {
     #[verifier::external_body]
     pub fn has_unprintable(&self, raw: &Vec<u8>) -> (r: bool) ensures r == esc_unprintable(*self, raw@) { unimplemented!() }
 }
-/// U+0020 is White_Space
-#[verifier::external_body]
-pub proof fn axiom_space_is_ws() ensures is_ws(' ') {}
-/// RuleRegistry::default(): registers equal/eq, no-eol, escaped/esc, glob/gl, regex/re (src/rules/registry.rs, read, not verified)
-pub uninterp spec fn dreg() -> OpaqueRegistry;
-#[verifier::external_body]
-pub proof fn axiom_default_registry()
-    ensures reg_wf(dreg()), reg_is_kind(dreg(), seq!['e', 'q', 'u', 'a', 'l']), reg_is_kind(dreg(), seq!['e', 's', 'c', 'a', 'p', 'e', 'd']) {}
